@@ -1,4 +1,280 @@
 package main
 
-func engineSample(r *runner)                               {}
-func runEngineCase(r *runner, flows []Flow, txns []Txn) {}
+// Engine-level sample: the same flow sets written as flow YAML files, loaded by
+// streams.NewStream().Initialize() (the production loader: Go-map order) and
+// driven through Stream.ExecuteFlow.  A flow counts as selected when its (single)
+// processor ran in the transaction's direction (verifhook "proc" event); for
+// requests Stream.GetFlowInvocations() must agree.  Also checks the pass-through
+// clause: nothing selected => no action, no invocation, no processor.
+
+import (
+	"fmt"
+	"os"
+	"path/filepath"
+	"sort"
+	"strings"
+	"sync"
+
+	"lunar/engine/streams"
+	stream_config "lunar/engine/streams/config"
+	public_types "lunar/engine/streams/public-types"
+	"lunar/engine/utils/environment"
+	"lunar/engine/verifhook"
+	context_manager "lunar/toolkit-core/context-manager"
+
+	c "verifharness/common"
+)
+
+var (
+	envOnce sync.Once
+	evMu    sync.Mutex
+	evSink  *[][2]string // (flow, stream type)
+)
+
+func repoDir() string {
+	if r := os.Getenv("VERIF_REPO"); r != "" {
+		return r
+	}
+	return "/repo"
+}
+
+func setupEnv() {
+	envOnce.Do(func() {
+		environment.SetProcessorsDirectory(filepath.Join(repoDir(),
+			"proxy/src/services/lunar-engine/streams/processors/registry"))
+		context_manager.Get().SetMockClock()
+		verifhook.SetEvent(func(kind string, args ...string) {
+			if kind != "proc" || len(args) < 3 {
+				return
+			}
+			evMu.Lock()
+			defer evMu.Unlock()
+			if evSink != nil {
+				*evSink = append(*evSink, [2]string{args[0], args[2]})
+			}
+		})
+	})
+}
+
+func yamlKVs(sb *strings.Builder, key string, kvs []KV) {
+	if len(kvs) == 0 {
+		return
+	}
+	fmt.Fprintf(sb, "  %s:\n", key)
+	for _, kv := range kvs {
+		fmt.Fprintf(sb, "    - key: %q\n      value: %q\n", kv.K, kv.V)
+	}
+}
+
+func flowYAML(f Flow) string {
+	var sb strings.Builder
+	fmt.Fprintf(&sb, "name: %s\nfilter:\n  url: %q\n", flowName(f.ID), f.URL)
+	if len(f.Methods) > 0 {
+		sb.WriteString("  method:\n")
+		for _, m := range f.Methods {
+			fmt.Fprintf(&sb, "    - %s\n", m)
+		}
+	}
+	yamlKVs(&sb, "headers", f.Headers)
+	yamlKVs(&sb, "query_params", f.Query)
+	if len(f.Status) > 0 {
+		sb.WriteString("  status_code:\n")
+		for _, s := range f.Status {
+			fmt.Fprintf(&sb, "    - %d\n", s)
+		}
+	}
+	sb.WriteString("processors:\n  probe:\n    processor: Filter\n    parameters:\n      - key: header\n        value: x-never=1\n")
+	dir := `    - from:
+        stream:
+          name: globalStream
+          at: start
+      to:
+        processor:
+          name: probe
+    - from:
+        processor:
+          name: probe
+          condition: hit
+      to:
+        stream:
+          name: globalStream
+          at: end
+    - from:
+        processor:
+          name: probe
+          condition: miss
+      to:
+        stream:
+          name: globalStream
+          at: end
+`
+	sb.WriteString("flow:\n  request:\n" + dir + "  response:\n" + dir)
+	return sb.String()
+}
+
+func loadEngine(flows []Flow) (*streams.Stream, error) {
+	setupEnv()
+	cwd, err := os.Getwd()
+	if err != nil {
+		return nil, err
+	}
+	base := filepath.Join(cwd, "cfg")
+	os.RemoveAll(base)
+	for _, d := range []string{"flows", "quotas", "pp"} {
+		if err := os.MkdirAll(filepath.Join(base, d), 0o755); err != nil {
+			return nil, err
+		}
+	}
+	for _, f := range flows {
+		if err := os.WriteFile(filepath.Join(base, "flows", flowName(f.ID)+".yaml"), []byte(flowYAML(f)), 0o644); err != nil {
+			return nil, err
+		}
+	}
+	environment.SetStreamsFlowsDirectory(filepath.Join(base, "flows"))
+	environment.SetQuotasDirectory(filepath.Join(base, "quotas"))
+	environment.SetPathParamsDirectory(filepath.Join(base, "pp"))
+	st, err := streams.NewStream()
+	if err != nil {
+		return nil, err
+	}
+	if err := st.Initialize(); err != nil {
+		return nil, err
+	}
+	return st, nil
+}
+
+func idOf(name string) int {
+	if len(name) == 3 && name[0] == 'f' {
+		return int(name[1]-'0')*10 + int(name[2]-'0')
+	}
+	return -1
+}
+
+// runEngineCase: flows must be a set the spec fully orders (no collision, no
+// malformed pattern): the Go-map load order is not under the harness's control.
+func runEngineCase(r *runner, flows []Flow, txns []Txn) {
+	o := r.o
+	k := Case{Flows: flows, Engine: true}
+	st, err := loadEngine(flows)
+	if err != nil {
+		o.Note("engine refused flow set " + fmt.Sprint(urlsOf(flows)) + ": " + err.Error())
+		o.Count("engine-load-error")
+		return
+	}
+	for range flows {
+		k.AddErr = append(k.AddErr, false)
+	}
+	for _, t := range txns {
+		var events [][2]string
+		acts := &stream_config.StreamActions{
+			Request: &stream_config.RequestStream{}, Response: &stream_config.ResponseStream{},
+		}
+		before := st.GetFlowInvocations()
+		api := mkStream(t)
+		evMu.Lock()
+		evSink = &events
+		evMu.Unlock()
+		execErr := st.ExecuteFlow(api, acts)
+		evMu.Lock()
+		evSink = nil
+		evMu.Unlock()
+		after := st.GetFlowInvocations()
+		want := public_types.StreamTypeRequest.String()
+		if t.Resp {
+			want = public_types.StreamTypeResponse.String()
+		}
+		sel := []int{}
+		for _, e := range events {
+			if e[1] == want {
+				sel = append(sel, idOf(e[0]))
+			}
+		}
+		sel = sortedInts(sel)
+		inv := []int{}
+		for name, n := range after {
+			for i := before[name]; i < n; i++ {
+				inv = append(inv, idOf(name))
+			}
+		}
+		sort.Ints(inv)
+		ob := Obs{Txn: t, Selected: sel}
+		k.Obs = append(k.Obs, ob)
+		o.MonitorChecked(2)
+		mini := Case{Flows: flows, AddErr: k.AddErr, Obs: []Obs{ob}, Engine: true}
+		if execErr != nil {
+			o.Hit(c.Hit{Suite: suite, Signature: "engine-error:ExecuteFlow", Demanded: "ExecuteFlow succeeds",
+				Observed: execErr.Error(), Case: mini})
+		}
+		if !t.Resp && fmt.Sprint(inv) != fmt.Sprint(sel) {
+			o.Hit(c.Hit{Suite: suite, Signature: "invocations-differ:executeReq",
+				Demanded: fmt.Sprintf("GetFlowInvocations counts exactly the flows whose processors ran (%v)", sel),
+				Observed: fmt.Sprintf("invocation deltas %v", inv), Case: mini})
+		}
+		if len(sel) == 0 {
+			nact := len(acts.Request.Actions) + len(acts.Response.Actions)
+			if nact != 0 || len(events) != 0 || len(inv) != 0 {
+				o.Hit(c.Hit{Suite: suite, Signature: "no-match-action:ExecuteFlow",
+					Demanded: "a transaction for which no flow is selected is passed through with no action at all",
+					Observed: fmt.Sprintf("%d actions, %d processor runs, invocations %v", nact, len(events), inv), Case: mini})
+			}
+		}
+	}
+	idx := o.Case(suite, coqCase(&k), k, true)
+	o.Count("gen=engine")
+	o.CountN("transactions", len(k.Obs))
+	for i := range k.Obs {
+		o.MonitorChecked(1)
+		for _, f := range checkSelection(k.Flows, k.AddErr, &k.Obs[i]) {
+			mini := Case{Flows: k.Flows, AddErr: k.AddErr, Obs: []Obs{k.Obs[i]}, Engine: true}
+			o.Hit(c.Hit{Suite: suite, Index: idx, Signature: f.sig, Demanded: f.demanded, Observed: f.observed, Case: mini})
+		}
+	}
+}
+
+func engineSample(r *runner) {
+	o := r.o
+	sets := [][]Flow{
+		mkFlows([]string{"a/b", "a/b"}, []constraint{constraintVariants[0], constraintVariants[5]}),
+		mkFlows([]string{"a/b", "a/b"}, []constraint{constraintVariants[5], constraintVariants[0]}),
+		mkFlows([]string{"a/b", "a/b", "a/b"}, []constraint{constraintVariants[3], constraintVariants[4], constraintVariants[0]}),
+		mkFlows([]string{"a/b", "a/b/*", "a/*"}, nil),
+		mkFlows([]string{"a", "a/*", "*"}, nil),
+		mkFlows([]string{"a/{p}", "a/b", "a/{p}/b"}, nil),
+		mkFlows([]string{"a.b/a", "a.b/{p}/*", "{p}.b/a"}, nil),
+	}
+	small := []string{}
+	for _, p := range allPatterns(3) {
+		if firstTok(p) != "b" && strings.Count(p, ".") < 2 {
+			small = append(small, p)
+		}
+	}
+	n := o.Scale(12, 150, 60)
+	for len(sets) < n {
+		cnt := o.Rng.Range(2, 4)
+		t, cs := []string{}, []constraint{}
+		for len(t) < cnt {
+			t = append(t, small[o.Rng.Intn(len(small))])
+			cs = append(cs, constraintVariants[o.Rng.Intn(len(constraintVariants))])
+		}
+		fs := mkFlows(t, cs)
+		if kindCollision(fs) {
+			continue
+		}
+		sets = append(sets, fs)
+	}
+	for i, fs := range sets {
+		pats := []string{}
+		for _, f := range fs {
+			pats = append(pats, f.URL)
+		}
+		urls := urlsFor(pats, 1)
+		if len(urls) > 10 {
+			shuffle(o.Rng, urls)
+			urls = urls[:10]
+		}
+		if i < 3 {
+			urls = []string{"a/b", "a/b/c"}
+		}
+		runEngineCase(r, fs, txnsFor(urls, true))
+	}
+}
